@@ -54,19 +54,45 @@ CLI_BODY = '''
         inp += ["-s", "in.s"]
     if src in (2, 3):
         inp += ["-b", "in.bin"]
-    mac = ["--macros"] + ["z_base.yaml", "a_extra.yaml", "z_base.yaml"][:nmacros] if nmacros else []
+    mac = ["--macros"] + mnames[:nmacros] if nmacros else []
     argv = ["jasm"] + (inp + opts if order else opts + inp) + mac
     _sys.argv = argv
     _Recorder.last = None
     _Recorder.fail = fail
     _Recorder.performed = 0
     code = "returned"
+    import os as _os
+    _saved = (_os.path.exists, _os.path.isfile, _os.stat)
+    if fs_exists is not None:
+        # the file system is the environment: whether some path exists is an arbitrary answer, the same for every path
+        # (only for calls made on behalf of the jasm package; the interpreter's and the tool's own calls see the real answer)
+        def _for_jasm():
+            f = _sys._getframe(2)
+            for _ in range(8):
+                if f is None:
+                    return False
+                if f.f_globals.get("__name__", "").startswith("jasm"):
+                    return True
+                f = f.f_back
+            return False
+        def _stub_exists(p, _real=_saved[0]):
+            return fs_exists if _for_jasm() else _real(p)
+        def _stub_stat(p, *a, _real=_saved[2], **kw):
+            if not _for_jasm():
+                return _real(p, *a, **kw)
+            if fs_exists:
+                return _real(_main.__file__)
+            raise FileNotFoundError(2, "No such file or directory", str(p))
+        _os.path.exists = _os.path.isfile = _stub_exists
+        _os.stat = _stub_stat
     try:
         _main.main()
     except SystemExit as e:
         code = e.code
     except Exception as e:
         code = "raised" if e is _Recorder.exc else "other exception"
+    finally:
+        _os.path.exists, _os.path.isfile, _os.stat = _saved
     usage_error = (not has_p) or src in (0, 3)
     if usage_error:
         return code not in ("returned", "raised", 0, None) and _Recorder.performed == 0
@@ -80,7 +106,7 @@ CLI_BODY = '''
         and c.input_file_type == (InputFileType.assembly if src == 1 else InputFileType.binary)
         and c.matching_mode == (MatchingSearchMode.all_finds if all_matches else MatchingSearchMode.first_find)
         and c.return_only_address == only_addr
-        and c.macros == (["z_base.yaml", "a_extra.yaml", "z_base.yaml"][:nmacros] if nmacros else None)
+        and c.macros == (mnames[:nmacros] if nmacros else None)
     )
 '''
 
@@ -89,7 +115,8 @@ CLI = '''def cli(all_matches: bool, only_addr: bool, src: int, nmacros: int, has
     pre: 0 <= src <= 3 and 0 <= nmacros <= 3
     post: _
     """
-    fail, order = False, False''' + CLI_BODY
+    fail, order, fs_exists = False, False, None
+    mnames = ["z_base.yaml", "a_extra.yaml", "z_base.yaml"]''' + CLI_BODY
 
 CLI_FAIL = '''def cli_fail(all_matches: bool, binary: bool, order: bool, kind: int) -> bool:
     """
@@ -109,7 +136,8 @@ CLI_FAIL = '''def cli_fail(all_matches: bool, binary: bool, order: bool, kind: i
         _Recorder.exc = AssertionError("missing file")
     else:
         _Recorder.exc = KeyError("x")
-    only_addr, nmacros, has_p, fail = False, 0, True, True
+    only_addr, nmacros, has_p, fail, fs_exists = False, 0, True, True, None
+    mnames = []
     src = 2 if binary else 1''' + CLI_BODY
 
 CLI_ORDER = '''def cli_order(all_matches: bool, only_addr: bool, binary: bool, nmacros: int) -> bool:
@@ -117,7 +145,26 @@ CLI_ORDER = '''def cli_order(all_matches: bool, only_addr: bool, binary: bool, n
     pre: 0 <= nmacros <= 1
     post: _
     """
-    has_p, fail, order = True, False, True
+    has_p, fail, order, fs_exists = True, False, True, None
+    mnames = ["z_base.yaml"]
+    src = 2 if binary else 1''' + CLI_BODY
+
+CLI_PATHS = '''def cli_paths(binary: bool, nmacros: int, exists: bool, name_kind: int, order: bool) -> bool:
+    """
+    pre: 0 <= nmacros <= 2 and 0 <= name_kind <= 3
+    post: _
+    """
+    # the paths typed on the command line reach the library verbatim: relative paths stay relative (to the cwd), names that
+    # look like DSL macro names (@...) or live in another directory are not reinterpreted, whatever exists on disk
+    all_matches, only_addr, has_p, fail, fs_exists = True, False, True, False, exists
+    if name_kind == 0:
+        mnames = ["m.yaml", "lib/m.yaml"]
+    elif name_kind == 1:
+        mnames = ["@shifts.yaml", "@m"]
+    elif name_kind == 2:
+        mnames = ["../m.yaml", "./m.yaml"]
+    else:
+        mnames = ["m.yaml", "m.yaml"]
     src = 2 if binary else 1''' + CLI_BODY
 
 PRE_LOG = '''
@@ -164,7 +211,8 @@ def harnesses(t):
     T = 120 if t == "quick" else 400
     hs = [ch.H("c20/cli", CLI, timeout=max(T, 240), prelude=PRE, key="cli_options", note="real argparse; presence of every option is symbolic"),
           ch.H("c20/cli_fail", CLI_FAIL, timeout=T, prelude=PRE, key="cli_failure", note="an exception raised by the operation propagates out of main()"),
-          ch.H("c20/cli_order", CLI_ORDER, timeout=T, prelude=PRE, key="cli_options", note="options given after the input file")]
+          ch.H("c20/cli_order", CLI_ORDER, timeout=T, prelude=PRE, key="cli_options", note="options given after the input file"),
+          ch.H("c20/cli_paths", CLI_PATHS, timeout=T, prelude=PRE, key="cli_paths", note="macro file names of four shapes (plain, @-prefixed, relative with ./ ../, repeated) reach MatchConfig verbatim whether or not any path exists (os.path.exists/isfile answer an arbitrary constant)")]
     for lens in [(1, 1, 1), (2, 3, 1)] + ([(3, 3, 3), (4, 1, 2)] if t == "thorough" else []):
         hs.append(ch.H("c20/reporting/" + "".join(map(str, lens)), log_harness(lens), timeout=T, prelude=PRE_LOG, key="reporting", note="0-3 symbolic hits through the real MatchedObserver with a capturing handler"))
     return hs
